@@ -59,7 +59,8 @@ def cases(tier, seed):
         for cv in ("kfold3", "blockkfold", "shuffle"):
             for sc in (None, "neg_mean_squared_error"):
                 yield dict(kind="cvs", ds=0, est=est, w=True, cv=cv, scoring=SCORERS.index(sc), mode="client")
-                yield dict(kind="cvs", ds=0, est=est, w=True, cv=cv, scoring=SCORERS.index(sc), mode="delayed")
+                yield dict(kind="cvs", ds=0, est=est, w=True, cv=cv, scoring=SCORERS.index(sc), mode="delayed",
+                           bound=(2 if tier == "quick" else None))
     for ds in (0, 1):
         for mode in ("plain", "spacing", "shape"):
             for sd in range(6):
@@ -77,8 +78,12 @@ def cases(tier, seed):
                         if sc is not None and (mind == "two" or cv == "default"):
                             continue
                         yield dict(kind="splinecv", dampings=list(perm), mind=mind, cv=cv, delayed=delayed, scoring=sc)
-    yield dict(kind="splinecv_sched", dampings=[1e-1, 1e-4], cv="kfold2")
-    yield dict(kind="splinecv_sched", dampings=[1e2, 1e-1], cv="kfold2")
+    yield dict(kind="splinecv_sched", dampings=[1e-1, 1e-4], cv="kfold2", bound=0)
+    yield dict(kind="splinecv_sched", dampings=[1e2, 1e-1], cv="kfold2", bound=0)
+    yield dict(kind="splinecv_sched", dampings=[1e2, 1e-4], cv="kfold2", bound=1)
+    if tier == "thorough":
+        yield dict(kind="splinecv_sched", dampings=[1e-1, 1e-4], cv="kfold2", bound=2)
+        yield dict(kind="splinecv_sched", dampings=[1e-4, 1e-1, 1e2], cv="kfold2", bound=0)
 
 
 # --------------------------------------------------------------------------------- fixtures
@@ -324,8 +329,7 @@ def run(case, rec):
                 rec.count("client_orders", 1)
             return
         # delayed: every interleaving at the fit/score boundary
-        bound = None if (nsplit <= 2 or case.get("tier_bound") is None and False) else None
-        bound = 2 if nsplit >= 3 else None
+        bound = case.get("bound", 2 if nsplit >= 3 else None)
         serial = None
         outcomes = set()
 
@@ -483,14 +487,23 @@ def run(case, rec):
         outcomes = set()
         bad = None
 
+        import verde.spline as vsp
+
         def run_sched(prefix):
             b = S.Baton(prefix)
             cvest = make(True)
-            with dask.config.set(scheduler=b):
-                cvest.fit((e, n), data)
+            orig = vsp.Spline
+            if orig not in _ICACHE:
+                _ICACHE[orig] = _instrument(orig)
+            vsp.Spline = _ICACHE[orig]      # the candidates SplineCV builds yield to the explorer after each fit
+            try:
+                with dask.config.set(scheduler=b):
+                    cvest.fit((e, n), data)
+            finally:
+                vsp.Spline = orig
             return (cvest.mindist_, cvest.damping_, tuple(np.round(np.asarray(cvest.force_), 9).tolist())), b
 
-        for choices, obs, b in S.explore(run_sched, 0):
+        for choices, obs, b in S.explore(run_sched, case.get("bound", 0)):
             nsched += 1
             rec.trans()
             outcomes.add(obs)
